@@ -215,12 +215,16 @@ def run_spec(ctx, src="e2.cxx", exe="e2", prefix_filter="", flags="", per_timeou
     with ThreadPoolExecutor(max_workers=min(int(os.environ.get("VERIF_JOBS", "16")), len(names))) as ex:
         rcs = list(ex.map(emit_one, range(len(names))))
     bad = [(names[k], r) for k, r in enumerate(rcs) if r[0] != 0]
-    if bad:
-        ctx.undecided(ctx.pid + "/emit", "VC generation failed for %s: %s" % (bad[0][0], bad[0][1][1]))
+    for (nm, r) in bad:
+        # that contract is undecided; the others are still discharged (a violation found elsewhere is still a violation)
+        ctx.undecided("%s/%s/emit" % (ctx.pid, nm.replace(" ", "_")), "VC generation failed for %s: %s" % (nm, r[1]))
+    if len(bad) == len(names):
         return
     ctx.notes.append("VC generation (symbolic execution of the real code, one process per contract) took %.1fs" % (time.time() - t0))
     idx = []
     for k in range(len(names)):
+        if rcs[k][0] != 0:
+            continue
         idx += json.load(open(os.path.join(vcdir, "index.%d.json" % k)))
     tmo = per_timeout or (300 if ctx.thorough else 30)
     paths = {}
